@@ -390,7 +390,105 @@ func checkFoundGuards(r *core.Result, prog *core.Program, lp *packages.Package) 
 //	X-dedup    the sorted tag tables are de-duplicated (a tag and its negative may both be requested)
 //	L-error    no error result of an in-package call is dropped, and every error test is `err != nil` leaving with an error
 //	L-make     a slice created with a non-zero length is not then used as the base of append (nil / zero entries in front)
+// checkSharedCapacity (L-cap, C13): a slice-typed struct field that the package appends to (FieldData.data) never
+// starts out as a two-index sub-slice of another slice: such a view keeps the capacity of what follows it, so the
+// append that outgrows its share writes into its neighbour's elements (values of another tag). Accepted right-hand
+// sides: nil, make, append results, composite literals, the field's own storage (`fd.data[:0]`), and three-index
+// slice expressions.
+func checkSharedCapacity(r *core.Result, prog *core.Program, lp *packages.Package) int {
+	info := lp.TypesInfo
+	// fields that are the base of an append somewhere in the package
+	appended := map[string]bool{}
+	for _, f := range core.Funcs(lp) {
+		if f.Decl == nil || f.Decl.Body == nil {
+			continue
+		}
+		ast.Inspect(f.Decl.Body, func(n ast.Node) bool {
+			c, ok := n.(*ast.CallExpr)
+			if !ok || len(c.Args) < 1 {
+				return true
+			}
+			if id, ok := c.Fun.(*ast.Ident); ok && id.Name == "append" {
+				if _, tn, fld, ok := fieldSel(info, c.Args[0]); ok {
+					appended[tn+"."+fld] = true
+				}
+			}
+			return true
+		})
+	}
+	n := 0
+	var twoIndexView func(e ast.Expr, self string) (bool, string)
+	twoIndexView = func(e ast.Expr, self string) (bool, string) {
+		se, ok := ast.Unparen(e).(*ast.SliceExpr)
+		if !ok {
+			return false, ""
+		}
+		if se.Slice3 {
+			return false, ""
+		}
+		if types.ExprString(ast.Unparen(se.X)) == self {
+			return false, "" // the field's own storage, emptied
+		}
+		// x[a:][:0] - look through the outer re-slice
+		if inner, ok := ast.Unparen(se.X).(*ast.SliceExpr); ok {
+			if bad, what := twoIndexView(inner, self); bad {
+				return true, what
+			}
+			if inner.Slice3 {
+				return false, ""
+			}
+		}
+		return true, types.ExprString(e)
+	}
+	for _, f := range core.Funcs(lp) {
+		if f.Decl == nil || f.Decl.Body == nil || strings.HasSuffix(prog.Fset.Position(f.Decl.Pos()).Filename, "_test.go") {
+			continue
+		}
+		f := f
+		ast.Inspect(f.Decl.Body, func(nn ast.Node) bool {
+			switch x := nn.(type) {
+			case *ast.AssignStmt:
+				if len(x.Lhs) != len(x.Rhs) {
+					return true
+				}
+				for i, l := range x.Lhs {
+					_, tn, fld, ok := fieldSel(info, l)
+					if !ok || !appended[tn+"."+fld] {
+						continue
+					}
+					n++
+					bad, what := twoIndexView(x.Rhs[i], types.ExprString(ast.Unparen(l)))
+					r.Ob("L-cap", fmt.Sprintf("%s :: %s.%s does not start as a view that shares capacity", f.Name, tn, fld), prog.Pos(x.Pos()), !bad,
+						"the appended-to field is set to "+what+", a two-index sub-slice: its capacity reaches into the elements that follow, so an append beyond its share overwrites another field's values (use a three-index slice expression)")
+				}
+			case *ast.CompositeLit:
+				for _, el := range x.Elts {
+					kv, ok := el.(*ast.KeyValueExpr)
+					if !ok {
+						continue
+					}
+					k, ok := kv.Key.(*ast.Ident)
+					if !ok {
+						continue
+					}
+					tn := namedOf(info.TypeOf(x))
+					if !appended[tn+"."+k.Name] {
+						continue
+					}
+					n++
+					bad, what := twoIndexView(kv.Value, "")
+					r.Ob("L-cap", fmt.Sprintf("%s :: %s.%s does not start as a view that shares capacity", f.Name, tn, k.Name), prog.Pos(kv.Pos()), !bad,
+						"the appended-to field is set to "+what+", a two-index sub-slice: its capacity reaches into the elements that follow")
+				}
+			}
+			return true
+		})
+	}
+	return n
+}
+
 func checkLazyMisc(r *core.Result, prog *core.Program, lp *packages.Package) {
+	r.Floor("stores to appended-to slice fields", checkSharedCapacity(r, prog, lp), 2)
 	info := lp.TypesInfo
 	nNeg, nErr := 0, 0
 	for _, f := range core.Funcs(lp) {
